@@ -74,6 +74,18 @@ class Units(object):
         return fac, {k: v for k, v in dims.items() if v != 0}
 
 
+TEMPLATE_RE = r'^\s*(\w+)\s*=\s*\{([^{}]*)\}\s*\{([^{}]*)\}\s*=\s*(\w+)\s*$'
+
+
+def _lossless_spec(spec):
+    """format spec of the value placeholder under which a Python float survives str.format -> pint parser unchanged"""
+    spec = spec.strip()
+    if spec in ('', '!r', '!s', ':', '0', '0!r', '0!s'):
+        return True
+    mm = re.match(r'^(?:0)?:\.?(\d+)([geE])$', spec)
+    return bool(mm and int(mm.group(1)) >= 17)
+
+
 def _q(m, u, ityp=False):
     """ityp: the magnitude may still have the (possibly integer) dtype of the caller's array -- it has only been
     multiplied by integer-valued magnitudes so far (numpy in-place true division / float scaling of such an array raises)"""
@@ -103,17 +115,23 @@ def install(ip, units):
         d = args[0]
         if not (isinstance(d, Obj) and d.cls == 'fmt'):
             raise Unsupported('define() of something that is not a formatted literal', node)
-        m = re.match(r'^\s*(\w+)\s*=\s*\{\}\s*\{\}\s*=\s*(\w+)\s*$', d.attrs['template'])
+        m = re.match(TEMPLATE_RE, d.attrs['template'])
         if not m or len(d.attrs['args']) != 2:
             raise Unsupported('unit definition template %r is not "name = {} {} = alias"' % d.attrs['template'], node)
+        spec = m.group(2)
+        if not _lossless_spec(spec):
+            # str.format('{}') of a float round-trips through pint's parser; a precision-limited spec does not
+            ip2.event('lossy-format', m.group(1), node, why='the characteristic value is formatted with {%s} before pint parses the '
+                      'definition: it is rounded (e.g. {:g} keeps 6 significant digits), so every conversion is off by the rounding '
+                      'error for values with more digits' % spec)
         val, unit = d.attrs['args']
         if not (isinstance(unit, Const) and isinstance(unit.v, str)):
             raise Unsupported('unit of a characteristic quantity is not a string literal', node)
         vt, _ = ip2.term_of(val, node)
         fac, dims = units.to_base(units.parse(unit.v))
-        for nm in (m.group(1), m.group(2)):
+        for nm in (m.group(1), m.group(4)):
             units.custom[nm] = (vt * fac, dims)
-        ip2.notes.append(('define', {'names': (m.group(1), m.group(2)), 'unit': unit.v, 'loc': ip2.loc(node)}))
+        ip2.notes.append(('define', {'names': (m.group(1), m.group(4)), 'unit': unit.v, 'loc': ip2.loc(node)}))
         return NONE
     ip.natives[('ureg', 'define')] = define
 
@@ -326,6 +344,42 @@ def rule_conversions(ctx, rule='R17.d'):
     ctx.floor(rule, n, 12, 'conversion method x characteristic-energy kind')
 
 
+def rule_definitions(ctx, rule='R17.c'):
+    """the characteristic units are defined with the values the user passed (no rounding on the way into the registry)"""
+    cls = ctx.prog.cls(UC)
+    mi = cls.find_method('__init__')
+    try:
+        ip, units, o = make_converter(ctx.prog)
+    except Unsupported as e:
+        ctx.undecided(rule, UC + '.__init__', str(e), mi.loc())
+        return
+    except Raised as e:
+        ctx.violation(rule, UC + '.__init__', 'raises', 'constructor raises %s: %s' % (e.exc, e.msg), mi.loc())
+        return
+    lossy = [e for e in ip.events if e['kind'] == 'lossy-format']
+    defs = [x for k_, x in ip.notes if k_ == 'define']
+    if lossy:
+        ctx.violation(rule, UC + '.__init__', 'lossy-format:' + ','.join(sorted(e['target'] for e in lossy)),
+                      '%s (%s)' % (lossy[0]['why'], ', '.join('%s at %s' % (e['target'], e['loc']) for e in lossy)), mi.loc())
+    elif len(defs) < 3:
+        ctx.undecided(rule, UC + '.__init__', 'expected three unit definitions (dc, mc, ec), found %d' % len(defs), mi.loc())
+    else:
+        bad = []
+        for nm, sym in (('dc', 'dc'), ('mc', 'mc'), ('ec', 'ec')):
+            if nm in units.custom:
+                fac, dims = units.custom[nm]
+                if sym not in fac.symbols() or not N.diff(fac, sym).is_const() is False and False:
+                    pass
+                if sym not in fac.symbols():
+                    bad.append('%s is defined without reference to the constructor argument %s (%s)' % (nm, sym, N.show(fac)))
+            else:
+                bad.append('%s is never defined' % nm)
+        if bad:
+            ctx.violation(rule, UC + '.__init__', 'definitions', '; '.join(bad), mi.loc())
+        else:
+            ctx.holds(rule, UC + '.__init__', 'dc, mc, ec are defined from the constructor arguments, formatted losslessly', mi.loc())
+
+
 def rule_registry_isolation(ctx, rule='R17.r'):
     """Every converter defines its characteristic units dc/mc/ec by name in a pint registry; two converters with
     different characteristic values therefore need two registries.  Two instances are constructed in one analysis
@@ -378,9 +432,9 @@ def rule_unit_literals(ctx, rule='R17.u'):
             elif tgt == 'self.pint.Quantity' and len(n.args) == 2 and isinstance(n.args[1], ast.Constant):
                 lits.append((n.args[1].value, n.lineno, 'Quantity'))
         if isinstance(n, ast.Constant) and isinstance(n.value, str):
-            mm = re.match(r'^\s*(\w+)\s*=\s*\{\}\s*\{\}\s*=\s*(\w+)\s*$', n.value)
+            mm = re.match(TEMPLATE_RE, n.value)
             if mm:
-                own |= {mm.group(1), mm.group(2)}
+                own |= {mm.group(1), mm.group(4)}
     init = cls.find_method('__init__')
     for d in init.node.args.defaults:
         if isinstance(d, ast.Constant) and isinstance(d.value, str):
